@@ -52,6 +52,15 @@ type node struct {
 	Mutated  bool
 	FV       reflect.Value   // attr: the struct field behind it (settable when build got an addressable value)
 	LV       []reflect.Value // block: the label fields
+	// layout decisions (zero value = the canonical layout)
+	OpenSet bool   // block: Open replaces the single space between the header and "{"
+	Open    string //
+	OLSet   bool   // one-line block: OLPre / OLPost replace the single spaces inside the braces
+	OLPre   string // (empty one-line block: OLPre is all there is between the braces)
+	OLPost  string
+	EqSet   bool // attr: own white space around '=' instead of the file-wide style
+	EqL     string
+	EqR     string
 }
 
 type printer struct {
@@ -517,6 +526,9 @@ func (p *printer) listExpr(l []string) (string, bool) {
 		b.WriteString(p.inlineComment())
 		last := i == len(l)-1
 		if !last || (p.wild > 0 && p.pct("ltc", 30)) {
+			if last {
+				p.cls("list-trailing-comma")
+			}
 			if p.wild > 0 {
 				b.WriteString(p.ws())
 			}
@@ -599,6 +611,9 @@ func (p *printer) mapExpr(m map[string]string, keys []string) (string, bool) {
 				b.WriteString("\n")
 			case 1:
 				b.WriteString(",\n")
+				if last {
+					p.cls("map-trailing-comma")
+				}
 			default:
 				if p.wild > 0 && p.pct("mtr", 20) {
 					b.WriteString(" " + p.lineComment())
@@ -610,6 +625,7 @@ func (p *printer) mapExpr(m map[string]string, keys []string) (string, bool) {
 		default:
 			if p.wild > 0 && p.pct("mtc", 20) {
 				b.WriteString(",")
+				p.cls("map-trailing-comma")
 			}
 			b.WriteString(" ")
 		}
@@ -774,12 +790,22 @@ func (p *printer) arrange(items []*node) []*node {
 				out = append(out, &node{Kind: "blank"}, &node{Kind: "comment", Text: p.lineComment()}, &node{Kind: "blank"})
 				p.cls("blank-line")
 			}
+			if p.pct("mblank", 2) {
+				out = append(out, p.blankRun()...)
+			}
 		}
 		if it.Kind == "attr" && p.wild > 0 {
 			it.PreEq = p.inlineComment()
 			it.PostEq = p.inlineComment()
 			if !it.ExprHD && p.pct("trail", 12) {
 				it.Trail = p.lineComment()
+			}
+			if p.pct("eqown", 5) {
+				// this attribute's own spacing around '=' (aligned columns, none at all, tabs)
+				it.EqSet = true
+				it.EqL = eqSpaces[p.n("eql", len(eqSpaces))]
+				it.EqR = eqSpaces[p.n("eqr", len(eqSpaces))]
+				p.cls("eq-spacing-per-attr")
 			}
 		}
 		if it.Kind == "block" {
@@ -794,6 +820,11 @@ func (p *printer) arrange(items []*node) []*node {
 				if real == 0 && p.pct("emptyone", 50) {
 					it.Body = nil
 					it.OneLine = true
+					p.cls("empty-block-one-line")
+					if p.pct("emptypad", 30) {
+						it.OLSet = true
+						it.OLPre = []string{" ", "  ", "\t", "/* none */", " /**/ "}[p.n("emptyin", 5)]
+					}
 				}
 				if real == 1 && p.pct("oneline", 40) {
 					var only *node
@@ -802,11 +833,29 @@ func (p *printer) arrange(items []*node) []*node {
 							only = c
 						}
 					}
-					if only != nil && !strings.Contains(only.Expr, "\n") && only.Trail == "" && !strings.Contains(only.PreEq+only.PostEq, "\n") {
-						it.Body = []*node{only}
-						it.OneLine = true
-						p.cls("one-line-block")
+					// the single-line form takes one attribute and nothing else; its value may span
+					// lines only inside brackets (a heredoc as the value itself needs a line end after
+					// its terminator, and a line comment would swallow the closing brace)
+					if only != nil && !only.ExprHD && only.Trail == "" {
+						ml := strings.Contains(only.Expr+only.PreEq+only.PostEq, "\n")
+						if !ml || p.pct("onelineml", 50) {
+							it.Body = []*node{only}
+							it.OneLine = true
+							p.cls("one-line-block")
+							if ml {
+								p.cls("one-line-block-multiline-value")
+							}
+							if len(it.Labels) > 0 {
+								p.cls("one-line-block-labelled")
+							}
+							p.oneLinePads(it)
+						}
 					}
+				}
+				if p.pct("bopen", 6) {
+					it.OpenSet = true
+					it.Open = []string{"", "\t", "   ", " /* x */ ", "/**/", " \t "}[p.n("bopenk", 6)]
+					p.cls("block-open-odd")
 				}
 				if p.pct("btrail", 10) {
 					it.Trail = p.lineComment()
@@ -818,7 +867,62 @@ func (p *printer) arrange(items []*node) []*node {
 	if p.wild > 0 && p.pct("tail", 10) {
 		out = append(out, &node{Kind: "comment", Text: p.lineComment()})
 	}
+	if p.wild > 0 && p.pct("mblanktail", 2) {
+		out = append(out, p.blankRun()...)
+	}
 	return out
+}
+
+var eqSpaces = []string{"", " ", "  ", "\t", "        ", " \t ", "\t\t"}
+
+// blankRun: several blank lines in a row, now and then with comment lines between them.
+func (p *printer) blankRun() []*node {
+	p.cls("blank-lines-multi")
+	var out []*node
+	k := 2 + p.n("mblankn", 5)
+	for i := 0; i < k; i++ {
+		out = append(out, &node{Kind: "blank"})
+		if p.pct("mblankc", 15) {
+			out = append(out, &node{Kind: "comment", Text: p.lineComment()})
+		}
+	}
+	return out
+}
+
+// oneLinePads chooses what stands between the braces and the attribute of a single-line block.
+func (p *printer) oneLinePads(it *node) {
+	if !p.pct("olpad", 35) {
+		return
+	}
+	pad := func(label string) string {
+		switch k := p.n(label, 8); k {
+		case 0, 1:
+			return ""
+		case 2:
+			return "  "
+		case 3:
+			return "\t"
+		case 4:
+			return " \t "
+		case 5, 6:
+			c := commentTexts[p.n(label+"c", len(commentTexts))]
+			extra := ""
+			if p.pct(label+"nl", 10) {
+				extra = "\n more "
+			}
+			return " /*" + c + extra + "*/ "
+		default:
+			return " "
+		}
+	}
+	it.OLSet = true
+	it.OLPre, it.OLPost = pad("olpre"), pad("olpost")
+	if it.OLPre == "" && it.OLPost == "" {
+		p.cls("one-line-block-tight")
+	}
+	if strings.Contains(it.OLPre+it.OLPost, "/*") {
+		p.cls("one-line-block-comment")
+	}
 }
 
 // ---------------------------------------------------------------------------- rendering (no draws)
@@ -846,7 +950,46 @@ func (r *renderer) w(s string) {
 func (r *renderer) nl() { r.w(r.st.NL) }
 
 func (r *renderer) attrText(n *node) string {
-	return n.Name + r.st.EqL + n.PreEq + "=" + n.PostEq + r.st.EqR + n.Expr
+	l, rr := r.st.EqL, r.st.EqR
+	if n.EqSet {
+		l, rr = n.EqL, n.EqR
+	}
+	return n.Name + l + n.PreEq + "=" + n.PostEq + rr + n.Expr
+}
+
+func (r *renderer) header(n *node) string {
+	h := n.Name
+	for _, l := range n.Labels {
+		h += " " + l
+	}
+	if n.OpenSet {
+		return h + n.Open + "{"
+	}
+	return h + " {"
+}
+
+// oneLine writes the inside of a single-line block and its closing brace.
+func (r *renderer) oneLine(n *node) {
+	if len(n.Body) == 0 {
+		r.w(n.OLPre + "}")
+		return
+	}
+	pre, post := " ", " "
+	if n.OLSet {
+		pre, post = n.OLPre, n.OLPost
+	}
+	c := n.Body[0]
+	r.w(pre)
+	c.LineFrom = r.line
+	if c.Kind == "block" {
+		// only ever produced by the fault injector: the dialect has no nested single-line blocks
+		r.w(r.header(c))
+		r.oneLine(c)
+	} else {
+		r.w(r.attrText(c))
+	}
+	c.LineTo = r.line
+	r.w(post + "}")
 }
 
 func (r *renderer) body(items []*node, depth int) {
@@ -870,19 +1013,10 @@ func (r *renderer) body(items []*node, depth int) {
 		case "block":
 			r.w(ind)
 			n.LineFrom = r.line
-			r.w(n.Name)
-			for _, l := range n.Labels {
-				r.w(" " + l)
-			}
-			r.w(" {")
+			r.w(r.header(n))
 			switch {
-			case n.OneLine && len(n.Body) == 0:
-				r.w("}")
 			case n.OneLine:
-				c := n.Body[0]
-				c.LineFrom = r.line
-				r.w(" " + r.attrText(c) + " }")
-				c.LineTo = r.line
+				r.oneLine(n)
 			default:
 				r.nl()
 				r.body(n.Body, depth+1)
